@@ -48,7 +48,17 @@ type UnitSpec struct {
 	Harness []string          `json:"harness"`
 	Stubs   map[string]string `json:"stubs"`
 	Extra   map[string]string `json:"extra_overlay"` // repo-relative virtual path -> file under /verif
+	// NativeTests: test files (under /verif) overlaid into the package and run natively; their output must contain
+	// "<marker> <n>" - used to validate contract stubs against the real component (e.g. the Redis stub vs miniredis)
+	NativeTests []NativeTest `json:"native_tests"`
 	Entries []EntrySpec       `json:"entries"`
+}
+
+type NativeTest struct {
+	File   string `json:"file"`
+	Run    string `json:"run"`
+	Marker string `json:"marker"`
+	What   string `json:"what"`
 }
 
 type CheckSpec struct {
@@ -144,6 +154,7 @@ type checker struct {
 	solverS                       float64
 	stubsUsed                     map[string]string
 	crossed                       int
+	stubChecks                    []string
 }
 
 func (c *checker) run() int {
@@ -220,6 +231,11 @@ func (c *checker) runUnit(ui int, u UnitSpec) {
 		c.inconclusive = append(c.inconclusive, "harness-build: "+firstLines(err.Error(), 6))
 		return
 	}
+	if c.index < 0 && c.only == "" {
+		for _, nt := range u.NativeTests {
+			c.runNativeTest(p, u, nt, work)
+		}
+	}
 	for _, e := range u.Entries {
 		no := c.entryNo
 		c.entryNo++
@@ -234,6 +250,58 @@ func (c *checker) runUnit(ui int, u UnitSpec) {
 		}
 		c.runEntry(p, u, e, work)
 	}
+}
+
+// runNativeTest runs a validation test of a stub natively (overlay, nothing written into the repository).
+func (c *checker) runNativeTest(p *Program, u UnitSpec, nt NativeTest, work string) {
+	dir := filepath.Join(work, "native-"+nt.Run)
+	rp, err := c.writeReplayDir(p, u, dir, nil)
+	if err != nil {
+		c.inconclusive = append(c.inconclusive, "stub-validation setup failed: "+err.Error())
+		return
+	}
+	// add the test file to the overlay and run only it
+	ob, _ := os.ReadFile(filepath.Join(dir, "overlay.json"))
+	var ov struct{ Replace map[string]string }
+	json.Unmarshal(ob, &ov)
+	tb, err := os.ReadFile(filepath.Join(c.verif, nt.File))
+	if err != nil {
+		c.inconclusive = append(c.inconclusive, "stub-validation: "+err.Error())
+		return
+	}
+	dst := filepath.Join(dir, filepath.Base(nt.File))
+	os.WriteFile(dst, tb, 0o644)
+	ov.Replace[filepath.Join(c.repo, u.Package, filepath.Base(nt.File))] = dst
+	delete(ov.Replace, filepath.Join(c.repo, u.Package, "zz_verif_replay_test.go"))
+	nb, _ := json.MarshalIndent(ov, "", " ")
+	os.WriteFile(filepath.Join(dir, "overlay.json"), nb, 0o644)
+	sh, _ := os.ReadFile(rp)
+	script := strings.Replace(string(sh), "-run 'TestZZReplay$'", "-run '"+nt.Run+"$'", 1)
+	os.WriteFile(rp, []byte(script), 0o755)
+	cmd := exec.Command("bash", rp)
+	cmd.Env = append(os.Environ(), fmt.Sprintf("VERIF_SEED=%d", c.seed))
+	out, _ := cmd.CombinedOutput()
+	txt := string(out)
+	n := 0
+	for _, l := range strings.Split(txt, "\n") {
+		if strings.HasPrefix(strings.TrimSpace(l), nt.Marker+" ") {
+			fmt.Sscanf(strings.TrimSpace(l)[len(nt.Marker)+1:], "%d", &n)
+		}
+	}
+	if n == 0 || strings.Contains(txt, "FAIL") {
+		c.inconclusive = append(c.inconclusive, "stub-mismatch: "+nt.What+": "+firstLines(lastLines(txt, 6), 6))
+		return
+	}
+	c.validated += n
+	c.stubChecks = append(c.stubChecks, fmt.Sprintf("%s: %d replies agreed", nt.What, n))
+}
+
+func lastLines(s string, n int) string {
+	ls := strings.Split(strings.TrimSpace(s), "\n")
+	if len(ls) > n {
+		ls = ls[len(ls)-n:]
+	}
+	return strings.Join(ls, "\n")
 }
 
 func firstLines(s string, n int) string {
@@ -660,6 +728,7 @@ func (c *checker) writeEvidence(wall float64) {
 		"solver_time_s":                 c.solverS,
 		"solvers":                       []string{"z3 4.8.12 (-in, incremental push/pop)", "z3 5.1.0 (z3-new): a sample of the assertion obligations is re-decided, disagreement = INCONCLUSIVE", "cvc5 1.0 --solve-bv-as-int=sum as fallback where an entry says so"},
 		"obligations_cross_checked":     c.crossed,
+		"stub_validation":               c.stubChecks,
 		"stubs":                         stubs,
 		"outside_claim":                 c.spec.OutsideClaim,
 		"inconclusive":                  c.inconclusive,
